@@ -87,4 +87,62 @@ theorem eq_trans (f : Nat) (h : Heap) (u v w : V) (tu tv tw : Tree)
   injection h1 with h1; injection h2 with h2
   rw [hb'', hiff''.mpr ((hiff.mp h1).trans (hiff'.mp h2))]
 
+
+/-! ## history_safe: no sequence of operations touches freed memory or destroys a shared child twice -/
+
+/-- The full statement: for EVERY history of guarded statements from the initial state (any number of root
+variables), the reference-count invariant holds in every reached state (each handle points to a live block of its
+kind, each live block's count is exactly the number of handles to it, objects stay sorted, no block contains itself)
+and every statement is either executed or refused by a guard — it never reads or releases a released block,
+never indexes outside an element array, never finds a zero count. -/
+def history_safe_full : Prop :=
+  ∀ (n : Nat) (ops : List Op),
+    Inv (run true (initState n) ops) [] ∧ ∀ r ∈ results true (initState n) ops, Safe r
+
+/-- **history_safe_partial** — the full statement for all histories in which `extend` is applied to root variables
+only (every other statement — typed and Var assignment incl. own elements/properties, auto-creating `operator[]`
+paths of any depth, append, resize, removeAt, remove, clear, clone, copy, drop, constructors — at any depth).
+What is missing for `history_safe_full`: `p.extend(q)` with a nested target `p`, whose loop needs an acyclicity
+invariant to show that the target Var outlives the releases the loop performs. -/
+theorem history_safe_partial (n : Nat) (ops : List Op) (hops : ∀ op ∈ ops, RootExtend op) :
+    Inv (run true (initState n) ops) [] ∧ ∀ r ∈ results true (initState n) ops, Safe r := by
+  obtain ⟨inv, _, hall⟩ := (Inv.init n).run ops (initState n) rfl hops
+  exact ⟨inv, hall⟩
+
+/-- in particular: no statement of such a history is a use after free, a double release (count 0) or an
+out-of-range element access -/
+theorem history_never_touches_freed (n : Nat) (ops : List Op) (hops : ∀ op ∈ ops, RootExtend op) :
+    ∀ r ∈ results true (initState n) ops, r ≠ .error .uaf ∧ r ≠ .error .oob ∧ r ≠ .error .rc := by
+  intro r hr
+  have hs := (history_safe_partial n ops hops).2 r hr
+  cases r with
+  | ok _ => refine ⟨?_, ?_, ?_⟩ <;> intro h <;> cases h
+  | error e =>
+    simp only [Safe, Refusal] at hs
+    refine ⟨?_, ?_, ?_⟩ <;> intro h <;> cases h <;> simp at hs
+
+/-- the hypotheses are satisfiable by a history that shares, auto-creates, self-assigns and releases -/
+example : ∀ r ∈ results true (initState 3)
+    [ .setLit ⟨0, [.idx 0, .idx 1]⟩ (.int 7), .copy 1 ⟨0, []⟩, .setV ⟨0, []⟩ ⟨0, [.idx 0]⟩,
+      .appLit ⟨1, []⟩ (.str [97]), .extend ⟨2, []⟩ ⟨1, []⟩, .drop 1 ], Safe r :=
+  (history_safe_partial 3 _ (by intro op hop; simp at hop; rcases hop with h | h | h | h | h | h <;> subst h <;> simp [RootExtend])).2
+
+/-! ## the inherited known finding: growth of a shared container -/
+
+/-- the same statement for histories whose statements are NOT guarded against growing a block with rc > 1 -/
+def history_safe_unguarded_full : Prop :=
+  ∀ (n : Nat) (ops : List Op), Inv (run false (initState n) ops) []
+
+/-- `Var a; a << 1 << 2 << 3; Var c = a; a << 4;` — the append reallocates the block `c` shares: afterwards `c`
+holds a handle to a released block (in the C++: heap-use-after-free in `c.length()` / `~Var`). -/
+theorem var_shared_growth_counterexample : ¬ history_safe_unguarded_full := by
+  intro h
+  have inv := h 2 [ .appLit ⟨0, []⟩ (.int 1), .appLit ⟨0, []⟩ (.int 2), .appLit ⟨0, []⟩ (.int 3),
+    .copy 1 ⟨0, []⟩, .appLit ⟨0, []⟩ (.int 4) ]
+  obtain ⟨b, hb, _⟩ := inv.wf.live (V.arr 0) (Or.inl (by decide)) 0 rfl
+  have hfreed : (run false (initState 2) [ .appLit ⟨0, []⟩ (.int 1), .appLit ⟨0, []⟩ (.int 2),
+      .appLit ⟨0, []⟩ (.int 3), .copy 1 ⟨0, []⟩, .appLit ⟨0, []⟩ (.int 4) ]).heap[0]? = some none := by decide
+  rw [getB_eq, hfreed] at hb
+  cases hb
+
 end C04
